@@ -137,6 +137,8 @@ pub enum Point {
     GetAfterMap,
     /// `invalidate_all`: before / after moving the watermark.
     InvalidateAllBefore,
+    /// `invalidate_all`: the clock has been read, the watermark not yet stored.
+    InvalidateAllMid,
     InvalidateAllAfter,
     /// `schedule_write_op`: before each `try_send`.
     WriteBeforeSend,
